@@ -278,6 +278,35 @@ def run(ctx):
                                "object was changed by the write", "content": c[:40].hex(), "read_back": [b[:40].hex() for b in back], "object_after": after[:40].hex(),
                                "nested": nested})
 
+    # ---- the READER is handed every legal buffer kind (bytes, bytearray, memoryview of unsigned / SIGNED / char / ctypes items): identifier and
+    # length octets >= 0x80 (high tag numbers, long-form lengths 128..255, 384.., 1000, 40000) and content octets >= 0x80 read back the same
+    import impl as IMPL
+    for n in (0, 1, 127, 128, 129, 200, 255, 256, 384, 511, 1000, 32768, 40000, 65535):
+        for tag in (None, ASN1Tag(TagClass.CONTEXT_SPECIFIC, 3, False), ASN1Tag(TagClass.PRIVATE, 200, False), ASN1Tag(TagClass.APPLICATION, 16383, False)):
+            content = bytes((i * 37 + 200) % 256 for i in range(n))
+            w = ASN1Writer()
+            w.write_octet_string(content, tag=tag)
+            w.write_integer(-129)
+            data = bytes(w.get_data())
+            for kind in ("bytes", "bytearray", "memoryview", "memoryview-signed", "memoryview-char", "memoryview-ctypes"):
+                evaluations += 1
+                hist["reader-input:" + kind] += 1
+                try:
+                    r = ASN1Reader(IMPL.input_object(data, kind))
+                    h = r.peek_header()
+                    back = r.read_octet_string(tag=tag) if tag is not None else r.read_octet_string()
+                    iv = r.read_integer()
+                    rest = r.get_remaining_data()
+                    ok = (h.length == n and back == content and iv == -129 and bytes(rest) == b"" and
+                          (tag is None or (h.tag.tag_class, h.tag.tag_number, h.tag.is_constructed) == (tag.tag_class, tag.tag_number, tag.is_constructed)))
+                    why = f"header length {h.length}, {len(back)} content octets, integer {iv}, {len(bytes(rest))} octets left"
+                except BaseException as e:  # noqa: BLE001
+                    ok, why = False, f"raised {type(e).__name__}: {e}"[:200]
+                if not ok:
+                    violations.append({"key": None, "what": f"a value of {n} content octets written by the writer is not read back from a {kind} buffer: {why}",
+                                       "input_kind": kind, "content_octets": n, "tag": None if tag is None else list(tag), "hex": data[:40].hex()})
+                    break
+
     # ---- nested sequences / sets written through the writer API and read back through sub-readers
     def build(w, depth):
         spec = []
